@@ -274,7 +274,13 @@ func writeString(res *promql.Result, w http.ResponseWriter) error {
 
 func writeScalar(res *promql.Result, w http.ResponseWriter) error {
 	val := res.Value.(promql.Scalar)
-	w.Write([]byte(fmt.Sprintf(`%f, "%f"`, float64(val.T)/1000, val.V)))
+	json := jsoniter.ConfigFastest
+	stream := json.BorrowStream(nil)
+	defer json.ReturnStream(stream)
+	stream.WriteFloat64(float64(val.T) / 1000)
+	stream.WriteMore()
+	stream.WriteString(strconv.FormatFloat(val.V, 'f', -1, 64))
+	w.Write(stream.Buffer())
 	return nil
 }
 
